@@ -70,4 +70,20 @@ theorem persisted_engine_keeps_cache_valid (env : Env) (cfg : Cfg) (hcs : cfg.ca
     simp only [persRun]
     exact ih _ (persStep_keeps env cfg hcs hb hf snap i {} hs)
 
+/-- non-vacuity: an environment whose handler returns a short value satisfies the bounds, and a fresh engine
+with a capacity of 100 bytes satisfies the invariant -/
+def demoEnv : Env :=
+  { code := fun _ _ => some [], tpl := fun _ _ => some [], label := fun _ _ => none,
+    ext := fun _ _ _ _ => some { content := [0x6f, 0x6b] }, langOf := fun _ => none, first := none }
+
+example : EnvBounded demoEnv 100 ∧ FirstBounded demoEnv 100 := by
+  refine ⟨?_, ?_⟩
+  · intro n sym input lang r h
+    simp only [demoEnv, Option.some.injEq] at h
+    subst h; decide
+  · intro fn h; simp [demoEnv] at h
+
+example : Cache.Inv (newEngine demoEnv { cacheSize := 100 }).vm.ca :=
+  (fresh_ok demoEnv { cacheSize := 100 } {} (by decide)).1
+
 end Vise.C08
